@@ -13,14 +13,18 @@ import (
 	"bufio"
 	"bytes"
 	"crypto/ecdsa"
+	"crypto/elliptic"
+	crand "crypto/rand"
 	"crypto/rsa"
 	"crypto/x509"
+	"crypto/x509/pkix"
 	"encoding/asn1"
 	"encoding/base64"
 	"encoding/json"
 	"encoding/pem"
 	"flag"
 	"fmt"
+	"math/big"
 	"os"
 	"sort"
 	"strings"
@@ -35,38 +39,55 @@ import (
 )
 
 type genFile struct {
-	Path string `json:"path"`
-	Text string `json:"text,omitempty"`
-	B64  string `json:"b64,omitempty"`
+	Path string   `json:"path"`
+	Text string   `json:"text,omitempty"`
+	B64  string   `json:"b64,omitempty"`
+	Make *genMake `json:"make,omitempty"` // a fixture the driver builds (foreign key material made with the standard library)
+}
+
+// genMake describes a user-supplied artifact: a PKCS#8 key (optionally with a self-signed certificate or
+// a certificate request) of the given type, made with the standard library, not with gopki.
+type genMake struct {
+	Kind    string `json:"kind"`    // "key" | "cert+key" | "csr"
+	Key     string `json:"key"`     // "P-224" | "P-256" | "P-384" | "P-521" | "RSA-1024" | "RSA-2048"
+	CN      string `json:"cn"`      // subject common name of the certificate / request
+	StrType string `json:"strType"` // "" (library default) | "utf8" | "ia5" | "t61" | "printable": string type of the subject attributes
+	KeyId   string `json:"keyId"`   // fixtures with the same keyId inside one case share the same key
 }
 
 type genCase struct {
-	Id     int             `json:"id"`
-	Files  []genFile       `json:"files"`
-	Flags  []string        `json:"flags"`  // default m,c
-	TzMin  *int            `json:"tzMin"`  // offset of time.Local in minutes east of UTC; nil = UTC
-	Runs   int             `json:"runs"`   // number of consecutive runs (default 1); the last one is reported
-	Tag    json.RawMessage `json:"tag"`    // opaque: copied to the output (the abstract case for the judge)
+	Id    int             `json:"id"`
+	Files []genFile       `json:"files"`
+	Flags []string        `json:"flags"` // default m,c
+	TzMin *int            `json:"tzMin"` // offset of time.Local in minutes east of UTC; nil = UTC
+	Runs  int             `json:"runs"`  // number of consecutive runs (default 1); the last one is reported
+	Tag   json.RawMessage `json:"tag"`   // opaque: copied to the output (the abstract case for the judge)
+	// VerifyAlg: alias -> signature algorithm OID with which the signature is ALSO verified (fact sigOkWith);
+	// used where the certificate's own algorithm fields are manipulated on purpose
+	VerifyAlg map[string]string `json:"verifyAlg"`
 }
 
 type genFacts struct {
 	X509Accepted   string   `json:"x509Accepted"` // "yes" | "no: <err>" | "n/a (brainpool)"
 	X509Agrees     bool     `json:"x509Agrees"`   // serial, names, dates, key and extension list read identically
 	X509Diff       []string `json:"x509Diff"`
-	RereadSame     bool     `json:"rereadSame"`   // gopki ReadPem -> WritePem reproduces the CERTIFICATE block
-	SigOK          bool     `json:"sigOk"`        // verifies under the issuer's current certificate key, algorithm from the certificate
+	RereadSame     bool     `json:"rereadSame"` // gopki ReadPem -> WritePem reproduces the CERTIFICATE block
+	SigOK          bool     `json:"sigOk"`      // verifies under the issuer's current certificate key, algorithm from the certificate
 	SigWhy         string   `json:"sigWhy"`
 	DnBytesOK      bool     `json:"dnBytesOk"`
 	IssuerFound    bool     `json:"issuerFound"`
-	SkiIsSha1      string   `json:"skiIsSha1"`    // "yes" | "no" | "absent"
-	AkiIsSha1      string   `json:"akiIsSha1"`    // of the issuer's subjectPublicKey bits
-	KeyKind        string   `json:"keyKind"`      // "rsa:<bits>" | "ec:<curve name>" | "?"
+	SkiIsSha1      string   `json:"skiIsSha1"` // "yes" | "no" | "absent"
+	AkiIsSha1      string   `json:"akiIsSha1"` // of the issuer's subjectPublicKey bits
+	KeyKind        string   `json:"keyKind"`   // "rsa:<bits>" | "ec:<curve name>" | "?"
 	KeyOnCurve     bool     `json:"keyOnCurve"`
 	KeyMatchesCert bool     `json:"keyMatchesCert"` // the PRIVATE KEY block's public key is the certificate's
 	HasPrivate     bool     `json:"hasPrivate"`
 	HasRequest     bool     `json:"hasRequest"`
 	HashLine       string   `json:"hashLine"`
 	IssuerSkiEqAki string   `json:"issuerSkiEqAki"` // child's AKI == issuer's SKI: "yes" | "no" | "n/a"
+	SigOkWith      string   `json:"sigOkWith"`      // "yes" | "no" | "n/a": verified with the algorithm given by the case (verifyAlg)
+	KeyId          string   `json:"keyId"`          // identity of the key material in the file
+	CertKeyId      string   `json:"certKeyId"`      // identity of the certificate's public key ("" if it is no valid key)
 }
 
 type genEnt struct {
@@ -79,14 +100,14 @@ type genEnt struct {
 }
 
 type genOut struct {
-	Id       int             `json:"id"`
-	Result   string          `json:"result"` // ok | failed | refused | panic
-	Err      string          `json:"err"`
-	Plan     []string        `json:"plan"`
-	T0       []int           `json:"t0"` // UTC [y,mo,d,hh,mi,ss] just before the (last) run
-	T1       []int           `json:"t1"` // ... just after
-	Ents     []genEnt        `json:"ents"`
-	Tag      json.RawMessage `json:"tag"`
+	Id     int             `json:"id"`
+	Result string          `json:"result"` // ok | failed | refused | panic
+	Err    string          `json:"err"`
+	Plan   []string        `json:"plan"`
+	T0     []int           `json:"t0"` // UTC [y,mo,d,hh,mi,ss] just before the (last) run
+	T1     []int           `json:"t1"` // ... just after
+	Ents   []genEnt        `json:"ents"`
+	Tag    json.RawMessage `json:"tag"`
 }
 
 func ints(b []byte) []int {
@@ -117,10 +138,14 @@ func genOne(cs *genCase) *genOut {
 	fsys := simfs.New()
 	type cfgInfo struct{ alias, issuer, path string }
 	var cfgs []cfgInfo
+	madeKeys := map[string]any{}
 	for _, f := range cs.Files {
 		data := []byte(f.Text)
 		if f.B64 != "" {
 			data, _ = base64.StdEncoding.DecodeString(f.B64)
+		}
+		if f.Make != nil {
+			data = makeFixture(f.Make, madeKeys)
 		}
 		fsys.Put(f.Path, data)
 		if isConfigName(f.Path) {
@@ -197,6 +222,21 @@ func genOne(cs *genCase) *genOut {
 		if ok && p.Cert != nil {
 			e.Der = ints(p.Cert)
 			e.Facts = certFacts(p, certs[ci.alias], certs, ci.issuer, ci.alias)
+			e.Facts.SigOkWith = "n/a"
+			if alg, ok := cs.VerifyAlg[ci.alias]; ok && certs[ci.alias] != nil {
+				e.Facts.SigOkWith = "no"
+				issuer := certs[ci.alias]
+				if ci.issuer != "" {
+					issuer = certs[ci.issuer]
+				}
+				if issuer != nil {
+					if ipk, err := issuer.PubKey(); err == nil {
+						if ok, _ := project.VerifySig(alg, ipk, certs[ci.alias].RawTBS, certs[ci.alias].Sig); ok {
+							e.Facts.SigOkWith = "yes"
+						}
+					}
+				}
+			}
 		}
 		out.Ents = append(out.Ents, e)
 	}
@@ -226,9 +266,21 @@ func certFacts(p project.PemFile, c *project.Cert, certs map[string]*project.Cer
 	} else {
 		f.KeyKind = "?: " + pkErr.Error()
 	}
+	if pk != nil {
+		f.CertKeyId = pk.ID()
+	}
 	if p.Key != nil {
-		if k, err := project.ParsePKCS8(p.Key); err == nil && pk != nil {
-			f.KeyMatchesCert = k.Pub.ID() == pk.ID()
+		if k, err := project.ParsePKCS8(p.Key); err == nil {
+			f.KeyId = k.Pub.ID()
+			if pk != nil {
+				f.KeyMatchesCert = k.Pub.ID() == pk.ID()
+			}
+		}
+	} else if p.Csr != nil {
+		if r, err := project.ParseCsr(p.Csr); err == nil {
+			if rk, err := r.PubKey(); err == nil {
+				f.KeyId = rk.ID()
+			}
 		}
 	}
 	// second opinion: crypto/x509 (cannot do brainpool)
@@ -409,4 +461,99 @@ func cmdGen(args []string) int {
 	sb, _ := json.Marshal(map[string]any{"evaluations": n, "ok": okc, "failed": failed, "panics": panics, "certificates": certs})
 	os.WriteFile(*statsOut, sb, 0644)
 	return 0
+}
+
+// ---------------------------------------------------------------------------------- fixtures
+
+func makeKey(name string) any {
+	switch name {
+	case "P-224":
+		k, _ := ecdsa.GenerateKey(elliptic.P224(), crand.Reader)
+		return k
+	case "P-384":
+		k, _ := ecdsa.GenerateKey(elliptic.P384(), crand.Reader)
+		return k
+	case "P-521":
+		k, _ := ecdsa.GenerateKey(elliptic.P521(), crand.Reader)
+		return k
+	case "RSA-1024":
+		k, _ := rsa.GenerateKey(crand.Reader, 1024)
+		return k
+	case "RSA-2048":
+		k, _ := rsa.GenerateKey(crand.Reader, 2048)
+		return k
+	}
+	k, _ := ecdsa.GenerateKey(elliptic.P256(), crand.Reader)
+	return k
+}
+
+func rawName(cn, strType string) []byte {
+	tag := map[string]int{"utf8": 12, "ia5": 22, "t61": 20, "printable": 19}[strType]
+	type atv struct {
+		Type  asn1.ObjectIdentifier
+		Value asn1.RawValue
+	}
+	mk := func(oid asn1.ObjectIdentifier, v string) []atv {
+		return []atv{{oid, asn1.RawValue{Class: 0, Tag: tag, Bytes: []byte(v)}}}
+	}
+	type set []atv
+	rdns := []any{}
+	_ = rdns
+	var seq []asn1.RawValue
+	for _, a := range [][]atv{mk(asn1.ObjectIdentifier{2, 5, 4, 6}, "DE"), mk(asn1.ObjectIdentifier{2, 5, 4, 10}, "Foreign Org"), mk(asn1.ObjectIdentifier{2, 5, 4, 3}, cn)} {
+		inner, _ := asn1.Marshal(a[0])
+		setb, _ := asn1.Marshal(asn1.RawValue{Class: 0, Tag: 17, IsCompound: true, Bytes: inner})
+		seq = append(seq, asn1.RawValue{FullBytes: setb})
+	}
+	b, _ := asn1.Marshal(seq)
+	return b
+}
+
+func makeFixture(m *genMake, keys map[string]any) []byte {
+	var key any
+	if m.KeyId != "" {
+		if k, ok := keys[m.KeyId]; ok {
+			key = k
+		}
+	}
+	if key == nil {
+		key = makeKey(m.Key)
+		if m.KeyId != "" {
+			keys[m.KeyId] = key
+		}
+	}
+	var pub any
+	switch k := key.(type) {
+	case *ecdsa.PrivateKey:
+		pub = &k.PublicKey
+	case *rsa.PrivateKey:
+		pub = &k.PublicKey
+	}
+	var bb bytes.Buffer
+	switch m.Kind {
+	case "cert+key":
+		tmpl := &x509.Certificate{SerialNumber: big.NewInt(987654321), Subject: pkix.Name{Country: []string{"DE"}, Organization: []string{"Foreign Org"}, CommonName: m.CN},
+			NotBefore: time.Date(2020, 1, 1, 0, 0, 0, 0, time.UTC), NotAfter: time.Date(2045, 1, 1, 0, 0, 0, 0, time.UTC),
+			IsCA: true, BasicConstraintsValid: true, KeyUsage: x509.KeyUsageCertSign | x509.KeyUsageCRLSign}
+		if m.StrType != "" {
+			tmpl.RawSubject = rawName(m.CN, m.StrType)
+		}
+		der, err := x509.CreateCertificate(crand.Reader, tmpl, tmpl, pub, key)
+		if err != nil {
+			panic(err)
+		}
+		pem.Encode(&bb, &pem.Block{Type: "CERTIFICATE", Bytes: der})
+		kb, _ := x509.MarshalPKCS8PrivateKey(key)
+		pem.Encode(&bb, &pem.Block{Type: "PRIVATE KEY", Bytes: kb})
+	case "csr":
+		der, err := x509.CreateCertificateRequest(crand.Reader, &x509.CertificateRequest{Subject: pkix.Name{CommonName: m.CN}}, key)
+		if err != nil {
+			panic(err)
+		}
+		pem.Encode(&bb, &pem.Block{Type: "CERTIFICATE REQUEST", Bytes: der})
+	default: // "key"
+		kb, _ := x509.MarshalPKCS8PrivateKey(key)
+		pem.Encode(&bb, &pem.Block{Type: "PRIVATE KEY", Bytes: kb})
+	}
+	return bb.Bytes()
 }
